@@ -161,11 +161,29 @@ func diamOf(ps []orb.Point) float64 {
 	return math.Hypot(mxx-mnx, mxy-mny)
 }
 
-// distTol is the absolute slack of distance comparisons: 1e-9 x (1 + max |coordinate|).
-func distTol(in []orb.Point) float64 { return relTol * (1 + scaleOf(in)) }
+// distTol is the slack of distance comparisons, RELATIVE to the case (the
+// simplifiers have no unit of length): 1e-9 x extent (bounding-box diagonal)
+// + 32 x eps x max |coordinate|. The second term is the float64 rounding of
+// the projection point that planar.DistanceFromSegmentSquared constructs (a
+// few ulps of the coordinate magnitude); it matters only when the vertices
+// differ in their last digits (mercator metres, offset "large" shapes).
+func distTol(in []orb.Point) float64 {
+	const eps = 1.0 / (1 << 52)
+	return relTol*diamOf(in) + 32*eps*scaleOf(in) + underflowDist
+}
+
+// Below these magnitudes the squared distances / coordinate products that the
+// simplifiers compare are subnormal or zero in float64 (sqrt of the smallest
+// normal number is 1.5e-154): such distances and areas are treated as zero.
+// This is the small-magnitude counterpart of the overflow bound |v| <= 1e100,
+// 130 orders of magnitude below the 2^-60 rescaling of unit-sized inputs.
+const (
+	underflowDist = 1e-150
+	underflowArea = 1e-300
+)
 
 // areaTol is the absolute slack of (doubled) area comparisons: 1e-9 x diameter^2.
-func areaTol(in []orb.Point) float64 { d := diamOf(in); return relTol * d * d }
+func areaTol(in []orb.Point) float64 { d := diamOf(in); return relTol*d*d + underflowArea }
 
 // distinctVertices: in[0..n-2] pairwise different, and in[n-1] either equal to
 // in[0] (closed) or different from all. Then every output vertex identifies
@@ -213,8 +231,8 @@ func indicesOf(in, out []orb.Point) []int {
 
 // ---------------------------------------------------------------- Douglas-Peucker
 
-// checkDPBound: every input vertex is within t x (1+1e-9) + 1e-9 x (1+scale) of
-// the output polyline.
+// checkDPBound: every input vertex is within t x (1+1e-9) + distTol of the
+// output polyline.
 func checkDPBound(what string, in, out []orb.Point, t float64) error {
 	if len(out) == 0 || math.IsInf(t, 1) {
 		return nil
